@@ -446,7 +446,12 @@ Record ostep := {
                                       saveResult logs the event only when value or category changed: an unchanged
                                       re-save is not observed, but it is a save of the same configured (name,
                                       category), so "saved or re-saved" is over-approximated all the same *)
-  os_touched : list aref;          (* fixed asset references carried by events logged on the step *)
+  os_touched : list aref;          (* the asset references carried by events logged on the step THAT THE VISITED NODE
+                                      NAMES (by identity, by an expression-free name, or as its documented default):
+                                      the harness drops every other carried reference before it writes the trace
+                                      (harness/cmd/c20/exec.go nodeFixedRefs), so assets touched without being
+                                      written in the flow — groups left through all_groups or a status change, the
+                                      outbound channel, re-evaluated query groups — never reach the model *)
   os_exit : option N;              (* the exit written on the step (step.Leave) *)
   os_resumed : bool                (* the step was the waiting step of an accepted resume *)
 }.
@@ -556,10 +561,14 @@ Definition position_ok (A : list flow) (st : state) (f : flow) (o : ostep) : boo
    denotes depends on the session assets: [names] is that table *)
 Record named := { nm_kind : akind; nm_name : text; nm_id : text }.
 
-(* FindByName / Get: compared without regard to letter case *)
+(* groups, labels, topics: FindByName compares lower-cased names; users: UserAssets.Get is a map lookup by the exact
+   email (flows/users.go) *)
+Definition name_matches (k : akind) (a b : text) : bool :=
+  match k with KUser => text_eqb a b | _ => eq_fold a b end.
+
 Definition resolve (names : list named) (k : akind) (nm : text) : list aref :=
   map (fun x => {| r_kind := k; r_id := nm_id x |})
-      (filter (fun x => N.eqb (akind_code (nm_kind x)) (akind_code k) && eq_fold (nm_name x) nm) names).
+      (filter (fun x => N.eqb (akind_code (nm_kind x)) (akind_code k) && name_matches k (nm_name x) nm) names).
 
 Definition has_topic_item (a : action) : bool :=
   existsb (fun it => match it with
